@@ -335,7 +335,7 @@ pub fn run(rep: &mut StageReport, tier: &str, seed: u64) {
     }
     // bare headers announcing a length: decoder must refuse > 1 MiB *now*, and wait otherwise
     let mut lens: Vec<u64> = vec![0, 1, 8, (LIMIT - 1) as u64, LIMIT as u64, LIMIT as u64 + 1, LIMIT as u64 + 2, 2 * LIMIT as u64, u32::MAX as u64, 1 << 40, u64::MAX - 1, u64::MAX, 1 << 63];
-    for _ in 0..if thorough { 20000 } else { 2000 } {
+    for _ in 0..if miri { 10 } else if thorough { 20000 } else { 2000 } {
         lens.push(match rng.below(3) {
             0 => LIMIT as u64 + rng.below(1000),
             1 => rng.next_u64(),
